@@ -14,7 +14,7 @@ ENTRIES = ["copy_randombytes17", "copy_randombytes37", "randombytes_buf21", "sta
            "randombytes_buf", "copy_randombytes", "secretbox_keygen", "secretbox_keygen_inplace", "box_keypair", "box_keypair_inplace",
            "kx_keypair", "kdf_keygen", "auth_keygen", "onetimeauth_keygen", "shorthash_keygen", "generichash_keygen", "sign_keypair",
            "sign_keypair_inplace", "secretstream_keygen", "secretstream_init_push", "box_seal", "pwhash_str",
-           "stack_gen32", "stack_gen24", "array_gen32", "vec_gen32", "vec_gen8", "keypair_gen", "keypair_gen_with_defaults",
+           "stack_gen32", "stack_gen24", "array_gen32", "vec_gen32", "vec_gen8", "stack_gen8", "stack_gen5", "array_gen7", "keypair_gen", "keypair_gen_with_defaults",
            "signing_keypair_gen", "signing_keypair_gen_with_defaults", "kdf_gen", "kdf_gen_with_defaults", "dryocbox_seal",
            "dryocstream_init_push", "pwhash_hash", "secretbox_nonce_gen", "secretbox_key_gen", "box_nonce_gen", "auth_key_gen",
            "onetimeauth_key_gen", "generichash_key_gen", "stream_key_gen", "kx_keypair_gen"]
@@ -23,12 +23,15 @@ NIGHTLY_ENTRIES = ["heap_gen32", "locked_gen32", "lockedro_gen32", "locked_trait
 SLOW = {"pwhash_str": 8, "pwhash_hash": 8, "pwhash_hash_salt32": 8, "pwhash_hash_salt21": 8, "pwhash_hash_salt64": 8}   # divide the call count (Argon2 per call)
 
 
-def judge_values(vals):
+SHORT = {"vec_gen8", "stack_gen8", "stack_gen5", "array_gen7"}   # values under 16 bytes: only the constant-byte-position test applies
+
+
+def judge_values(vals, short=False):
     """no value repeats, none is all-zero, no byte position is constant (judged on ≥ 16-byte values:
     for n calls of an L-byte value P[false alarm] ≤ n²·2^(-8L) + L·256·2^(-8(n-1)))"""
-    if len(set(vals)) != len(vals):
+    if not short and len(set(vals)) != len(vals):
         return "a value repeated"
-    if any(set(v) <= {"0"} for v in vals):
+    if not short and any(set(v) <= {"0"} for v in vals):
         return "an all-zero value"
     L = len(vals[0]) // 2
     for pos in range(L):
@@ -46,7 +49,7 @@ def run(tier, seed):
     cases = []
     for e in ENTRIES:
         cnt = max(40, n // SLOW.get(e, 1))
-        if e != "vec_gen8":   # 8-byte values alone cannot meet the 2^-100 false-alarm bound; their data flow is checked by the hooked runs
+        if True:   # values under 16 bytes (SHORT) are judged by the constant-byte-position test only; their data flow is checked by the hooked runs
             cases.append(Case("rand %s %d" % (e, cnt), cls="os-rng/" + e, meta={"entry": e}))
         for k in range(3 if tier == "quick" else 20):
             cases.append(Case("randh %s %s" % (e, hx(rbytes(rng, 64))), cls="hooked/" + e))
@@ -74,7 +77,7 @@ def run(tier, seed):
         if c.line.startswith("rand "):
             vals = i[3:].split(",")
             # 8-byte values (kdf context) are judged jointly with the value they are generated with: all values here are ≥ 16 bytes
-            why = judge_values(vals)
+            why = judge_values(vals, short=c.meta.get("entry") in SHORT)
             for v in vals:
                 res.distinct.add(v)
             if why:
@@ -88,6 +91,23 @@ def run(tier, seed):
                     res.violations.append({"kind": "predicate", "line": c.line, "answers": answers, "why": "the operation drew %s bytes from the entropy source, the documented data flow draws %s" % (d_i.group(1) or "0", d_m.group(1))})
                 else:
                     res.corr_breaks.append({"line": c.line, "answers": answers})
+    # the OS-generator statistics once more on the RELEASE-profile build (optimised, no debug assertions): a draw that only happens inside
+    # a `debug_assert!`, say, shows up here and nowhere else
+    if RELEASE_PASS:
+        rl = [l for l, c in zip(lines, cases) if c.line.startswith("rand ") and not c.meta.get("nightly")]
+        rimpl = run_engine(build_runner("release"), rl)
+        for c in cases:
+            if not c.line.startswith("rand ") or c.meta.get("nightly"):
+                continue
+            i = rimpl.get(c.id, ["missing"])[0]
+            res.evaluations += 1
+            res.count("release-profile/" + c.cls)
+            if not i.startswith("ok "):
+                res.violations.append({"kind": "impl-" + i.split(" ")[0], "line": c.line, "answers": {"impl(release profile)": i[:200]}, "why": "randomised entry point failed on the release-profile build"})
+                continue
+            why = judge_values(i[3:].split(","), short=c.meta.get("entry") in SHORT)
+            if why:
+                res.violations.append({"kind": "predicate", "line": c.line, "answers": {"impl(release profile)": i[:400]}, "why": "release-profile build: " + why})
     return conclude(res, lean, trusted=TRUSTED,
                     rule="per randomised entry point: %d calls on the OS generator (no repeat, none all-zero, no constant byte position; false-alarm probability < 2^-100) and hooked runs where the implementation's result and the sizes of its draws are compared with the Lean data-flow model; distinct = distinct random values observed" % n,
                     assumptions=["OS entropy quality"])
